@@ -7,7 +7,7 @@ grouped by X or by a sibling, removed rows, a two-way reference. X's type is cha
 ordered pair of the 11 data types (enumerated) and for generated pairs/contents, through ModifyColumn
 or through the _grist_Tables_column record.
 """
-import itertools, json
+import json
 from hypothesis import strategies as st
 from ..runner import Outcome
 from .. import env
@@ -25,7 +25,7 @@ RULE = ('case = (T1, T2, contents of X, sibling contents, route, extras). Enumer
         'alt text that parses as number / bool / ISO date / JSON list / RecordList repr, other-typed primitives) and alternating route '
         '(ModifyColumn / UpdateRecord / BulkUpdateRecord on _grist_Tables_column). Generated part: random pair, 0-8 cells from '
         'value specs, route, optional summary table grouped by X or by sibling S, removed rows, two-way reference '
-        '(Ref/RefList only), widgetOptions sent along. Non-trivial = the change succeeded and at least one cell of X '
+        '(Ref/RefList only), widgetOptions sent along, an earlier unjudged type change T0 -> T1 (contents left behind by a conversion). Non-trivial = the change succeeded and at least one cell of X '
         'changed its Node-visible value or became alt text; distinct by hash of the concrete user actions.')
 ORACLE = ('for every row, encode_object(new stored X) must be Node-equal to encode_object(C(old stored X)) where old stored values '
           'are read (raw_get) before the change and C is the conversion of the NEW type: the usertypes type object of T2 taken '
@@ -40,8 +40,8 @@ ASSUMPTIONS = ['the expected value uses usertypes.<T2>.convert (C22 judges that 
                'incompatible type changes of a two-way reference column are documented to be rejected (ValueError) and are not judged',
                'Ref/RefList columns point to an existing table; no display columns / trigger formulas on X',
                'dependent formula results and summary tables keyed on X are exempt per the statement (not judged here)']
-BUDGET = {'quick': dict(examples=400, shards=8, max_seconds=60),
-          'thorough': dict(examples=8000, shards=16, max_seconds=480)}
+BUDGET = {'quick': dict(examples=700, shards=12, max_seconds=60),
+          'thorough': dict(examples=14000, shards=16, max_seconds=480)}
 
 ZONES = ['UTC', 'America/New_York', 'Asia/Tokyo']
 BASES = ['Text', 'Int', 'Numeric', 'Bool', 'Date', 'DateTime', 'Choice', 'ChoiceList', 'Ref', 'RefList', 'Any']
@@ -93,6 +93,7 @@ def strategy(tier):
     'twoway': st.sampled_from([False, False, False, True]),
     'wopt': st.sampled_from([False, False, True]),
     'w0': st.booleans(),
+    'pre': st.one_of(st.none(), st.none(), bi),
   })
 
 
@@ -152,10 +153,13 @@ def build(case, out):
       t2 = type_name(BASES.index('RefList') if fi == BASES.index('Ref') else BASES.index('Ref'))
   if t1 == t2:
     t2 = type_name(ti + 1, case.get('zt', 0))
+  t0 = t1
+  if isinstance(case.get('pre'), int) and not case.get('twoway'):
+    t0 = type_name(case['pre'], case.get('zt', 0))
   r = d.apply([['AddTable', 'Other', [{'id': 'A', 'type': 'Text', 'isFormula': False},
                                       {'id': 'N', 'type': 'Int', 'isFormula': False}]],
                ['BulkAddRecord', 'Other', [None] * 3, {'A': ['a', 'b', 'c'], 'N': [1, 2, 3]}],
-               ['AddTable', 'Src', [{'id': 'X', 'type': t1, 'isFormula': False,
+               ['AddTable', 'Src', [{'id': 'X', 'type': t0, 'isFormula': False,
                                      'widgetOptions': '{"alignment":"right"}' if case.get('w0') else ''},
                                     {'id': 'S', 'type': 'Text', 'isFormula': False},
                                     {'id': 'K', 'type': 'Int', 'isFormula': False},
@@ -173,13 +177,19 @@ def build(case, out):
   sib = [_pad(c, [0, 0, 'a']) for c in (case.get('sib') or [])[:3]] or [[0, 1, 'a']]
   n = len(cells)
   if n:
-    cv = {'X': [O.cell_value(d, t1, c) for c in cells],
+    cv = {'X': [O.cell_value(d, t0, c) for c in cells],
           'S': [O.cell_value(d, 'Text', sib[i % len(sib)]) for i in range(n)],
           'K': [O.cell_value(d, 'Int', sib[(i + 1) % len(sib)]) for i in range(n)],
           'R': [(i % 4) for i in range(n)]}
     r = d.apply([['BulkAddRecord', 'Src', [None] * n, cv]])
     if not r.ok:
       raise RuntimeError('C23 setup (rows) failed: %r' % (r.error,))
+  if t0 != t1:
+    # an earlier type change (setup, not judged): X now holds what T0 -> T1 left behind
+    r = d.apply([['ModifyColumn', 'Src', 'X', {'type': t1}]])
+    if not r.ok:
+      raise RuntimeError('C23 setup (earlier type change %s -> %s) failed: %r' % (t0, t1, r.error))
+    out.cls('doc:after-earlier-type-change')
   rm = sorted(set(1 + int(i) % n for i in (case.get('removed') or [])[:2])) if n else []
   if rm:
     d.apply([['BulkRemoveRecord', 'Src', rm]])
